@@ -854,12 +854,14 @@ class Array(Type):
         return idx
 
     def _normalize_slice(self, slice_):
+        if self.is_sized():
+            # Same semantics as python sequences
+            return slice(*slice_.indices(self.array_len))
+        if slice_.stop is None:
+            raise ValueError("Slices of an unsized array need a stop index")
         start = slice_.start if slice_.start is not None else 0
-        stop = slice_.stop if slice_.stop is not None else self.get_size()
         step = slice_.step if slice_.step is not None else 1
-        start = self._normalize_idx(start)
-        stop = self._normalize_idx(stop)
-        return slice(start, stop, step)
+        return slice(start, slice_.stop, step)
 
     def _check_bounds(self, idx):
         if not isinstance(idx, int_types):
